@@ -212,8 +212,17 @@ def rwa_cases(ck, qr, numpy, scipy):
         inp = {"H": H.tolist(), "nt": nt, "dt": dt, "Nref": nref}
         lab = ReducedDensityMatrixPropagator(ta, Hamiltonian(data=H.copy()))
         d_lab = numpy.array(lab.propagate(ReducedDensityMatrix(data=rho0.copy()), Nref=nref).data)
-        hr = Hamiltonian(data=H.copy())
-        hr.set_rwa([0, 1])
+        if h % 2 == 1:
+            # the same Hamiltonian supplied, and its rotating-wave blocks declared, inside a units context
+            from quantarhei import energy_units, convert
+            uctx = ("1/cm", "eV", "THz")[(h // 2) % 3]
+            inp["hamiltonian_and_set_rwa_inside_energy_units"] = uctx
+            with energy_units(uctx):
+                hr = Hamiltonian(data=numpy.array(convert(H, "int", to=uctx)))
+                hr.set_rwa([0, 1])
+        else:
+            hr = Hamiltonian(data=H.copy())
+            hr.set_rwa([0, 1])
         pr = ReducedDensityMatrixPropagator(ta, hr)
         ev = pr.propagate(ReducedDensityMatrix(data=rho0.copy()), Nref=nref)
         ev.convert_from_RWA(hr)
